@@ -5,6 +5,8 @@ import os
 from . import mir
 from .facts import VERIF, BrokenCheck
 
+import re as _re
+common_ident_re = _re.compile(r"[A-Za-z_][A-Za-z0-9_]*(?:::[A-Za-z_][A-Za-z0-9_]*)*")
 _TABLES = {}
 
 
@@ -68,6 +70,40 @@ class CallGraph:
         for p, f in F.fns.items():
             self.edges[p] = self._edges_of(f)
 
+    CALLBACK_TRAITS = ("std::fmt::Display", "std::fmt::Debug", "std::hash::Hash", "std::cmp::PartialEq", "std::cmp::Eq",
+                       "std::cmp::PartialOrd", "std::cmp::Ord", "std::clone::Clone", "std::default::Default", "std::ops::Drop",
+                       "std::iter::FromIterator", "std::iter::Extend", "std::iter::IntoIterator", "std::iter::Iterator",
+                       "std::convert::From", "std::convert::TryFrom", "std::ops::Add", "std::ops::Sub", "std::ops::Neg",
+                       "std::ops::Deref", "std::ops::DerefMut", "std::str::FromStr", "std::iter::Sum", "std::convert::AsRef",
+                       "std::string::ToString", "std::error::Error")
+
+    def _type_impls(self):
+        """workspace ADT path -> fn paths of its impls of callback traits"""
+        if getattr(self, "_timpl", None) is None:
+            idx = {}
+            for f in self.F.fns.values():
+                tr = f.get("impl_trait")
+                if tr in self.CALLBACK_TRAITS:
+                    st = f.get("impl_self") or ""
+                    for m in common_ident_re.findall(st):
+                        if m in self.F.adts:
+                            idx.setdefault(m, set()).add(f["path"])
+            self._timpl = idx
+        return self._timpl
+
+    def _callbacks(self, t):
+        out = set()
+        ti = self._type_impls()
+        callee = t.get("callee") or ""
+        # `x.into()`: the From impl between the two instantiated types
+        seen = set()
+        for g in t.get("gargs", ()):
+            for m in common_ident_re.findall(g):
+                if m in ti and m not in seen:
+                    seen.add(m)
+                    out |= ti[m]
+        return out
+
     def _edges_of(self, f):
         F = self.F
         out = set()
@@ -93,15 +129,17 @@ class CallGraph:
                     out.add(r)
                 elif c and c in F.fns and not t.get("trait"):
                     out.add(c)
-                elif t.get("trait"):
-                    # unresolved (generic) or resolved-to-default trait method: CHA over workspace impls
-                    if r and r in F.fns:
-                        out.add(r)
-                    else:
-                        for ip in self.impl_index.get((t["trait"], t["method"]), ()):
-                            out.add(ip)
-                        if c in F.fns:
-                            out.add(c)
+                elif t.get("trait") and not r:
+                    # unresolved (generic context) trait method: CHA over workspace impls of that method
+                    for ip in self.impl_index.get((t["trait"], t["method"]), ()):
+                        out.add(ip)
+                    if c in F.fns:
+                        out.add(c)
+                elif r and r not in F.fns:
+                    # resolved to library code: it may call back into the workspace through trait impls of the
+                    # workspace types it is instantiated with (From via Into, Display via to_string/format, Hash/Eq via
+                    # hash containers, Ord via sort, FromIterator via collect, ...)
+                    out.update(self._callbacks(t))
                 for x in t.get("fnrefs", ()):
                     out.add(x)
                 for a in t["args"]:
